@@ -120,11 +120,21 @@ impl zlink_core::Listener for ScriptedListener {
 }
 thread_local! { static SERVED: std::cell::RefCell<Vec<u32>> = std::cell::RefCell::new(Vec::new()); }
 struct Svc;
+/// the service's reply stream: the items in order; `idle_polls` Pending results (each with a wake-up) before every item and the end
+struct ItemStream { items: std::collections::VecDeque<Reply<P>>, idle_polls: usize, idle_left: usize }
+impl futures_util::Stream for ItemStream {
+    type Item = Reply<P>;
+    fn poll_next(mut self: std::pin::Pin<&mut Self>, cx: &mut std::task::Context<'_>) -> Poll<Option<Reply<P>>> {
+        if self.idle_left > 0 { self.idle_left -= 1; cx.waker().wake_by_ref(); return Poll::Pending; }
+        self.idle_left = self.idle_polls;
+        Poll::Ready(self.items.pop_front())
+    }
+}
 impl zlink_core::Service for Svc {
     type MethodCall<'de> = M;
     type ReplyParams<'ser> = P;
     type ReplyStreamParams = P;
-    type ReplyStream = futures_util::stream::Iter<std::vec::IntoIter<Reply<P>>>;
+    type ReplyStream = ItemStream;
     type ReplyError<'ser> = E;
     async fn handle<'ser>(&'ser mut self, call: Call<Self::MethodCall<'_>>) -> MethodReply<Self::ReplyParams<'ser>, Self::ReplyStream, Self::ReplyError<'ser>> {
         match call.method() {
@@ -134,12 +144,14 @@ impl zlink_core::Service for Svc {
             M::T { n } => {
                 let n = *n;
                 let items: Vec<Reply<P>> = (0..n).map(|i| Reply::new(Some(P { a: 1000 + i })).set_continues(Some(i + 1 < n))).collect();
-                MethodReply::Multi(futures_util::stream::iter(items))
+                MethodReply::Multi(ItemStream { items: items.into(), idle_polls: 0, idle_left: 0 })
             }
             M::U { n } => {
                 let n = *n;
                 let items: Vec<Reply<P>> = (0..n).map(|i| { let r = Reply::new(Some(P { a: 2000 + i })); if i + 1 < n { r.set_continues(Some(true)) } else { r } }).collect();
-                MethodReply::Multi(futures_util::stream::iter(items))
+                // a.U is a SLOW stream: it is idle (Pending, but woken) for three polls before each item and before its end, so the
+                // server loop goes round with the subscription open and nothing to deliver - whatever else it does meanwhile
+                MethodReply::Multi(ItemStream { items: items.into(), idle_polls: 3, idle_left: 3 })
             }
         }
     }
